@@ -420,3 +420,356 @@ pub fn expected_answered(reqs: &[Req], ka_enabled: bool) -> usize {
     }
     n
 }
+
+// ------------------------------------------------------------------------------------------
+// C02 / C03 / C04: handler programs and answers
+
+pub const RESP_CHUNKS: &[usize] = &[0, 1, 2, 7, 100, 1000, 4096, 9000, 33000];
+
+pub struct AnsOpts {
+    pub allow_fail: bool,
+    pub allow_short_long: bool,
+    pub allow_empty_chunks: bool,
+    pub allow_bodiless_status_with_body: bool,
+    pub allow_user_framing: bool,
+    pub allow_force_close: bool,
+    pub allow_from_task: bool,
+    pub max_chunk: usize,
+}
+
+pub fn gen_answer(rng: &mut Rng, gates: &mut Vec<GateEv>, gate_delay_max: u64, o: &AnsOpts) -> Answer {
+    let status = *rng.pick(&[200u16, 200, 200, 201, 404, 500, 204, 304]);
+    let bodiless = status == 204 || status == 304;
+    let sizes: Vec<usize> = RESP_CHUNKS.iter().copied().filter(|c| *c <= o.max_chunk && (o.allow_empty_chunks || *c > 0)).collect();
+    let nchunks = rng.range(1, 4);
+    let chunks: Vec<usize> = (0..nchunks).map(|_| *rng.pick(&sizes)).collect();
+    let total: usize = chunks.iter().sum();
+    let mut body = if bodiless && !(o.allow_bodiless_status_with_body && rng.chance(1, 4)) {
+        if rng.chance(1, 2) { BodySpec::Empty } else { BodySpec::NoneBody }
+    } else {
+        match rng.below(12) {
+            // `body::None` is documented for responses that forbid a payload (204/304); on other
+            // statuses it yields a close-delimited message by the handler's own choice
+            0 | 1 => BodySpec::Empty,
+            2 | 3 => BodySpec::Bytes(*rng.pick(&sizes)),
+            4 | 5 => BodySpec::Sized { len: total as u64, chunks: chunks.clone() },
+            6 | 7 | 8 => BodySpec::Stream { chunks: chunks.clone() },
+            9 => BodySpec::Custom { claim: SizeClaim::Stream, chunks: chunks.clone() },
+            10 => BodySpec::Custom { claim: SizeClaim::Sized(total as u64), chunks: chunks.clone() },
+            _ => {
+                if o.allow_from_task {
+                    BodySpec::FromTask { chunks: chunks.iter().map(|c| (*c).max(1)).collect() }
+                } else {
+                    BodySpec::Stream { chunks: chunks.clone() }
+                }
+            }
+        }
+    };
+    if o.allow_short_long && rng.chance(1, 10) {
+        // sized body that lies about its size
+        let delta = *rng.pick(&[1usize, 5, 1000]);
+        let len = if rng.chance(1, 2) { total + delta } else { total.saturating_sub(delta) };
+        body = if rng.chance(1, 2) {
+            BodySpec::Sized { len: len as u64, chunks: chunks.clone() }
+        } else {
+            BodySpec::Custom { claim: SizeClaim::Sized(len as u64), chunks: chunks.clone() }
+        };
+    }
+    let has_stream = !matches!(body, BodySpec::Empty | BodySpec::NoneBody | BodySpec::Bytes(_));
+    let nch = match &body {
+        BodySpec::Sized { chunks, .. } | BodySpec::Stream { chunks } | BodySpec::Custom { chunks, .. } | BodySpec::FromTask { chunks } => chunks.len(),
+        _ => 0,
+    };
+    let mut chunk_gates = vec![];
+    if has_stream && rng.chance(1, 2) {
+        for _ in 0..nch {
+            if rng.chance(1, 2) {
+                gates.push(GateEv { at_ms: if gate_delay_max > 0 && rng.chance(1, 3) { rng.below(gate_delay_max + 1) } else { 0 } });
+                chunk_gates.push(Some(gates.len() - 1));
+            } else {
+                chunk_gates.push(None);
+            }
+        }
+    }
+    let fail_after = if o.allow_fail && has_stream && !matches!(body, BodySpec::FromTask { .. }) && rng.chance(1, 10) { Some(rng.usize(nch + 1)) } else { None };
+    let mut headers = vec![];
+    if rng.chance(1, 3) {
+        headers.push(("x-app".to_string(), "v".to_string()));
+    }
+    if o.allow_user_framing && rng.chance(1, 10) {
+        match rng.below(3) {
+            0 => headers.push(("content-length".to_string(), total.to_string())),
+            1 => headers.push(("connection".to_string(), (*rng.pick(&["close", "keep-alive"])).to_string())),
+            _ => headers.push(("transfer-encoding".to_string(), "chunked".to_string())),
+        }
+    }
+    Answer {
+        status,
+        headers,
+        force_close: o.allow_force_close && rng.chance(1, 12),
+        body,
+        chunk_gates,
+        chunk_yields: if has_stream && rng.chance(1, 4) { rng.range(1, 3) as u32 } else { 0 },
+        fail_after,
+        as_error: rng.chance(1, 10),
+    }
+}
+
+#[derive(Clone, Copy, PartialEq, Eq, Debug)]
+pub enum ReadPolicy {
+    /// every handler consumes its request body to the end
+    AlwaysAll,
+    /// any mix of none / some / all / drop / hold
+    Any,
+}
+
+pub fn gen_steps(rng: &mut Rng, r: &Req, gates: &mut Vec<GateEv>, gate_delay_max: u64, policy: ReadPolicy, allow_task: bool) -> Vec<Step> {
+    let mut steps = vec![];
+    let mut gate = |rng: &mut Rng, gates: &mut Vec<GateEv>| {
+        gates.push(GateEv { at_ms: if gate_delay_max > 0 && rng.chance(1, 3) { rng.below(gate_delay_max + 1) } else { 0 } });
+        Step::Gate(gates.len() - 1)
+    };
+    if rng.chance(1, 3) {
+        steps.push(gate(rng, gates));
+    }
+    let has_body = !matches!(r.framing, Framing::None);
+    let read = match policy {
+        ReadPolicy::AlwaysAll => match rng.below(if allow_task { 4 } else { 3 }) {
+            0 | 1 => Step::ReadAll,
+            2 => Step::ReadSlow,
+            _ => Step::MovePayloadToTask,
+        },
+        ReadPolicy::Any => {
+            if !has_body {
+                Step::ReadAll
+            } else {
+                match rng.below(8) {
+                    0 | 1 => Step::ReadAll,
+                    2 => Step::ReadSlow,
+                    3 => Step::ReadChunks(rng.range(0, 2) as u32),
+                    4 => Step::DropPayload,
+                    5 => Step::HoldPayload,
+                    6 => Step::Yield(1),
+                    _ => Step::ReadChunks(1),
+                }
+            }
+        }
+    };
+    steps.push(read.clone());
+    if policy == ReadPolicy::Any && has_body {
+        if let Step::ReadChunks(_) = read {
+            match rng.below(3) {
+                0 => steps.push(Step::DropPayload),
+                1 => steps.push(Step::HoldPayload),
+                _ => {}
+            }
+        }
+    }
+    if rng.chance(1, 3) {
+        steps.push(gate(rng, gates));
+    }
+    if rng.chance(1, 8) {
+        steps.push(Step::Yield(rng.range(1, 3) as u32));
+    }
+    steps
+}
+
+pub struct ProfileOpts {
+    pub prop: &'static str,
+}
+
+/// Generic "pipelined requests + scripted handlers" scenario used by C02 / C03 / C04.
+pub fn gen_pipeline(rng: &mut Rng, prop: &'static str) -> H1Scenario {
+    let c04 = prop == "C04";
+    let c03 = prop == "C03";
+    let timers = if c04 { false } else { rng.chance(1, 8) };
+    let delays: u32 = if rng.chance(1, 4) { *rng.pick(&[5u32, 50, 700]) } else { 0 };
+    let nreq = rng.range(1, 5);
+    let ropts = ReqOpts {
+        allow_head: true,
+        allow_10: true,
+        // C04 compares with a reference run: nothing may make the number of dispatched requests
+        // depend on timing, so no request or handler ends the connection early there
+        allow_conn_opts: !c04,
+        allow_expect: rng.chance(1, 3),
+        max_body: if rng.chance(1, 8) { 20000 } else { 1000 },
+        body_p: if c03 { 90 } else { 50 },
+    };
+    let reqs: Vec<Req> = (0..nreq).map(|i| gen_req(rng, i as u32 + 1, &ropts)).collect();
+    let mut gates = vec![];
+    let aopts = AnsOpts {
+        allow_fail: !c04 || rng.chance(1, 4),
+        allow_short_long: !c04,
+        allow_empty_chunks: true,
+        allow_bodiless_status_with_body: !c04,
+        allow_user_framing: !c04,
+        allow_force_close: !c04,
+        allow_from_task: c04,
+        max_chunk: if rng.chance(1, 6) { 33000 } else { 1000 },
+    };
+    let policy = if c03 || (prop == "C02" && rng.chance(1, 3)) { ReadPolicy::Any } else { ReadPolicy::AlwaysAll };
+    let progs: Vec<Prog> = reqs
+        .iter()
+        .map(|r| Prog {
+            steps: gen_steps(rng, r, &mut gates, delays as u64, policy, c04),
+            answer: gen_answer(rng, &mut gates, delays as u64, &aopts),
+        })
+        .collect();
+    let mut sock = gen_sock_benign(rng);
+    let grants = gen_grants(rng, &mut sock, delays);
+    let expect = if ropts.allow_expect {
+        match rng.below(6) {
+            0 if !c04 => ExpectPlan::Reject(417),
+            1 => {
+                gates.push(GateEv { at_ms: 0 });
+                ExpectPlan::GateThenAccept(gates.len() - 1)
+            }
+            _ => ExpectPlan::Accept,
+        }
+    } else {
+        ExpectPlan::Accept
+    };
+    let mut conn = ConnScript {
+        reqs,
+        raw: None,
+        segs: vec![],
+        end: End::KeepOpen,
+        reset_after_out: None,
+        sock,
+        grants,
+        progs,
+        start_ms: 0,
+    };
+    let stream = conn.stream();
+    let layout = conn.layout();
+    let interesting = interesting_offsets(&stream, &layout);
+    let mode = gen_cutmode(rng, stream.len());
+    conn.segs = gen_segs(rng, stream.len(), &interesting, mode, delays);
+    // a client that sent `Expect: 100-continue` may wait for the interim response before the body
+    if ropts.allow_expect && rng.chance(1, 2) {
+        let mut ncont = 0;
+        let mut extra: Vec<Seg> = Vec::new();
+        for (i, r) in conn.reqs.iter().enumerate() {
+            if r.expect100 {
+                ncont += 1;
+                let head_end = layout[i].1;
+                // make sure there is a cut exactly at the end of that head, and the next segment waits
+                extra.push(Seg { end: head_end, delay_ms: 0, wait: Wait::Time });
+                let _ = ncont;
+            }
+        }
+        if !extra.is_empty() {
+            let mut segs = conn.segs.clone();
+            segs.extend(extra.iter().cloned());
+            segs.sort_by_key(|s| s.end);
+            segs.dedup_by_key(|s| s.end);
+            // the segment that starts at a head end of an expect request waits for the interim response
+            let mut cont_seen = 0;
+            for k in 0..segs.len() {
+                let start = if k == 0 { 0 } else { segs[k - 1].end };
+                for (i, r) in conn.reqs.iter().enumerate() {
+                    if r.expect100 && layout[i].1 == start && layout[i].2 > start {
+                        cont_seen += 1;
+                        segs[k].wait = Wait::Continue(cont_seen);
+                    }
+                }
+            }
+            conn.segs = segs;
+        }
+    }
+    conn.end = match rng.below(4) {
+        0 => End::KeepOpen,
+        1 => End::HalfClose { delay_ms: if delays > 0 { rng.below(delays as u64 + 1) as u32 } else { 0 } },
+        _ => End::HalfCloseAfterResponses { n: nreq as u32, delay_ms: 0 },
+    };
+    let keep_alive = if timers {
+        Ka::TimeoutMs(*rng.pick(&[1000u64, 5000]))
+    } else if !c04 && rng.chance(1, 6) {
+        Ka::Disabled
+    } else {
+        Ka::Os
+    };
+    let cfg = Cfg {
+        keep_alive,
+        req_timeout_ms: if timers { 5000 } else { 0 },
+        disc_timeout_ms: if !c04 && rng.chance(1, 4) { *rng.pick(&[1000u64, 3000]) } else { 0 },
+        half_closed: rng.chance(3, 4),
+        write_buf: *rng.pick(&[1usize, 64, 1024, 32768]),
+        expect,
+    };
+    let gate_max = gates.iter().map(|g| g.at_ms).max().unwrap_or(0);
+    let horizon = total_delay(&conn.segs) + gate_max + 2000 + if timers { 12_000 } else { 0 } + cfg.disc_timeout_ms + 1000 * conn.reqs.iter().filter(|r| r.expect100).count() as u64;
+    H1Scenario {
+        note: format!("{}-pipeline", prop),
+        cfg,
+        conns: vec![conn],
+        gates,
+        signal_at_ms: None,
+        sched: gen_sched(rng),
+        horizon_ms: horizon,
+        max_steps: 400_000,
+    }
+}
+
+/// The same (request, handler) pair alone on a fresh connection under the trivial schedule.
+pub fn solo_scenario(sc: &H1Scenario, req_idx: usize, prog: &Prog) -> H1Scenario {
+    let cs = &sc.conns[0];
+    let mut p = prog.clone();
+    // all gates open from the start: remove waits
+    p.steps.retain(|s| !matches!(s, Step::Gate(_)));
+    p.answer.chunk_gates.clear();
+    let r = cs.reqs[req_idx].clone();
+    let len = write_req(&r).0.len();
+    let expect = match sc.cfg.expect {
+        ExpectPlan::GateThenAccept(_) => ExpectPlan::Accept,
+        e => e,
+    };
+    H1Scenario {
+        note: "solo-reference".into(),
+        cfg: Cfg { expect, ..sc.cfg.clone() },
+        conns: vec![ConnScript {
+            reqs: vec![r],
+            raw: None,
+            segs: vec![Seg { end: len, delay_ms: 0, wait: Wait::Time }],
+            end: End::HalfCloseAfterResponses { n: 1, delay_ms: 0 },
+            reset_after_out: None,
+            sock: SockPlan::default(),
+            grants: vec![],
+            progs: vec![p],
+            start_ms: 0,
+        }],
+        gates: vec![],
+        signal_at_ms: None,
+        sched: Sched::default(),
+        horizon_ms: 3000,
+        max_steps: 100_000,
+    }
+}
+
+/// The whole scenario under the trivial schedule: one segment, always-ready socket, gates open.
+pub fn reference_scenario(sc: &H1Scenario) -> H1Scenario {
+    let mut r = sc.clone();
+    r.note = "reference".into();
+    for c in r.conns.iter_mut() {
+        let len = c.stream().len();
+        let waits: Vec<Seg> = c.segs.iter().filter(|s| s.wait != Wait::Time).cloned().collect();
+        let _ = waits;
+        c.segs = vec![Seg { end: len, delay_ms: 0, wait: Wait::Time }];
+        c.sock = SockPlan::default();
+        c.grants = vec![];
+        for p in c.progs.iter_mut() {
+            p.steps.retain(|s| !matches!(s, Step::Gate(_) | Step::Yield(_)));
+            p.answer.chunk_gates.clear();
+            p.answer.chunk_yields = 0;
+        }
+        c.start_ms = 0;
+    }
+    for g in r.gates.iter_mut() {
+        g.at_ms = 0;
+    }
+    if let ExpectPlan::GateThenAccept(_) = r.cfg.expect {
+        r.cfg.expect = ExpectPlan::Accept;
+    }
+    r.sched = Sched::default();
+    r
+}
